@@ -271,11 +271,14 @@ def ref_step(env, ins, seed, kind):
                 if not r.indexed[key]:
                     raise Invalid()
                 labs = r.coords[key]
+                uniq = len(set(map(repr, labs))) == len(labs)
+                if isinstance(v, list) and not uniq:
+                    raise Invalid()      # pandas: a list of labels needs a uniquely valued index
                 def pos(x):
-                    for i, l in enumerate(labs):
-                        if l == x and type(l) is type(x):
-                            return i
-                    raise Invalid()
+                    hits = [i for i, l in enumerate(labs) if l == x and type(l) is type(x)]
+                    if len(hits) != 1:
+                        raise Invalid()  # missing, or a repeated label (xarray then keeps the dimension: outside the generated fragment)
+                    return hits[0]
                 ps = [pos(x) for x in v] if isinstance(v, list) else pos(v)
             else:
                 n = r.data.shape[k]
@@ -429,7 +432,7 @@ def ref_step(env, ins, seed, kind):
         ps = []
         for p in params:
             m = [i for i, l in enumerate(a.coords[d]) if l == p and type(l) is type(p)]
-            if not m:
+            if len(m) != 1:
                 raise Invalid()
             ps.append(m[0])
         dims0 = [x for x in a.dims if x != d]
@@ -925,7 +928,10 @@ class Gen:
                     labs = r.coords[k]
                     if any(isinstance(l, tuple) for l in labs):
                         continue
-                    v = rng.choice(labs) if rng.random() < 0.5 else rng.sample(labs, rng.randint(1, n))
+                    once = [l for l in labs if sum(1 for m in labs if m == l and type(m) is type(l)) == 1]
+                    if not once:
+                        continue
+                    v = rng.choice(once) if rng.random() < 0.5 else rng.sample(once, rng.randint(1, len(once)))
                     if bad:
                         v = "nolabel" if not isinstance(v, list) else v + [12345]
                 else:
@@ -975,7 +981,10 @@ class Gen:
                 labs = r.coords[d]
                 if not r.indexed[d] or any(isinstance(l, tuple) for l in labs):
                     return False
-                ps = [rng.choice(labs) for _ in range(rng.choice([2, 3]))]
+                once = [l for l in labs if sum(1 for m in labs if m == l and type(m) is type(l)) == 1]
+                if not once:
+                    return False
+                ps = [rng.choice(once) for _ in range(rng.choice([2, 3]))]
                 ins = {"op": "transform", "a": cur, "body": "sel", "d": d, "params": ps, "name": name, "axis": rng.choice([0, 0, -1])}
             if rng.random() < 0.5:
                 ins["vals"] = gen_coords(rng, len(ps), rng.choice(["str", "int10"]))
